@@ -7,6 +7,7 @@ mod exec;
 mod kinds;
 mod poll;
 mod req;
+mod pkce;
 
 use std::io::{BufRead, Write};
 use std::panic::{catch_unwind, AssertUnwindSafe};
@@ -23,6 +24,11 @@ fn run_line(line: &str) -> String {
         "REQ" => req::run(&ws[1..]),
         "URLINFO" => req::urlinfo(&ws[1..]),
         "AUTHURL" => req::authurl(&ws[1..]),
+        "PKCE" => pkce::pkce(&ws[1..]),
+        "PKCERAND" => pkce::pkcerand(&ws[1..]),
+        "CSRF" => pkce::csrf(&ws[1..]),
+        "RANDBULK" => pkce::randbulk(&ws[1..]),
+        "SECEQ" => pkce::seceq(&ws[1..]),
         _ => proto::BAD.into(),
     }
 }
